@@ -1,7 +1,7 @@
 """one run of one configuration in a fresh interpreter; prints a digest of the whole observable
 outcome (every logger record, every agent notification, all price series, final holdings, and
 whether the caller's settings object was modified).
-usage: c07_worker.py <case.json> <mode>     mode ∈ plain | perturb:<n> | prior | norecord"""
+usage: c07_worker.py <case.json> <mode>     mode ∈ plain | perturb:<n> | prior | sibling | same"""
 import copy
 import hashlib
 import json
@@ -66,6 +66,12 @@ def main():
     if mode == "prior":
         other = case["prior_config"]
         outcome(other, 12345)
+    if mode == "sibling":
+        # an earlier run, in the same process, of a configuration with the same entities but other
+        # parameters (what a parameter sweep does): nothing of it may leak into this run
+        outcome(case["sibling_config"], 777)
+    if mode == "same":
+        outcome(case["config"], case["seed"] + 1)
     print(json.dumps(outcome(case["config"], case["seed"])))
 
 
